@@ -3,6 +3,7 @@
 use std::time::Duration;
 
 pub mod c08;
+pub mod c09;
 pub mod c16;
 pub mod e1;
 pub mod e2;
@@ -43,6 +44,7 @@ pub fn dispatch(id: &str, tier: Tier, replay: Option<&str>, budget: Duration) ->
         "C01" | "C02" | "C03" => e2::run(id, &mut report, budget),
         "C16" => c16::run(&mut report),
         "C08" => c08::run(&mut report),
+        "C09" => c09::run(&mut report),
         _ => {
             eprintln!("unknown property {id}");
             return 2;
